@@ -310,5 +310,28 @@ func Parallel(n, workers int, f func(i int)) {
 	wg.Wait()
 }
 
+// ParallelW is Parallel with the worker index passed to f (for per-worker names).
+func ParallelW(n, workers int, f func(w, i int)) {
+	if workers < 1 {
+		workers = 1
+	}
+	var wg sync.WaitGroup
+	ch := make(chan int, 64)
+	for w := 0; w < workers; w++ {
+		wg.Add(1)
+		go func(w int) {
+			defer wg.Done()
+			for i := range ch {
+				f(w, i)
+			}
+		}(w)
+	}
+	for i := 0; i < n; i++ {
+		ch <- i
+	}
+	close(ch)
+	wg.Wait()
+}
+
 // Q renders arbitrary bytes readably for keys and samples.
 func Q(s string) string { return strconv.Quote(s) }
